@@ -109,11 +109,13 @@ def permsOf : List Ev → List (List Nat)
 termination_by l => l.length
 decreasing_by all_goals simp_wf <;> omega
 
-def choicesOf (adopt : Bool) (tr : List Ev) : Choices :=
-  { dirty := fun id =>
-      (tr.findSome? (fun e => match e with
+def choicesOf (adopt : Bool) (tr : List Ev) : Choices Unit :=
+  { check := fun _ id =>
+      ((tr.findSome? (fun e => match e with
         | .set i .ready n _ _ => if i = id then some n else none
-        | _ => none)).map (fun n => n == .queued)
+        | _ => none)).map (fun n => n == .queued), ())
+    onSuccess := fun _ _ => ()
+    onAdopt := fun _ _ => ()
     adopt := adopt
     perms := permsOf tr
     finishes := tr.filterMap (fun e => match e with | .finish id t => some (id, t) | _ => none) }
